@@ -183,7 +183,17 @@ func (s *Set[T]) unsafeIterator() *fun.Iterator[T] {
 	if s.list != nil {
 		return s.list.Iterator()
 	}
-	return s.hash.Keys()
+	return fun.SliceIterator(s.keys())
+}
+
+// keys copies the items of the set out of the map. Callers must hold
+// the set's lock.
+func (s *Set[T]) keys() []T {
+	out := make([]T, 0, len(s.hash))
+	for k := range s.hash {
+		out = append(out, k)
+	}
+	return out
 }
 
 // Producer will produce each item from set on successive calls. If
@@ -200,6 +210,14 @@ func (s *Set[T]) Producer() (out fun.Producer[T]) {
 
 	if s.list != nil {
 		return s.list.Producer()
+	}
+
+	if s.mtx.Get() != nil {
+		// the goroutine behind ProducerKeys would range over the
+		// map without the lock while other goroutines add and
+		// delete: a synchronized set iterates over the keys it
+		// had when the producer was made.
+		return fun.SliceIterator(s.keys()).Producer()
 	}
 
 	return s.hash.ProducerKeys()
